@@ -321,12 +321,12 @@ func vfPayloadAt(e *vfStepEnv, i int) byte {
 	m := e.masked()
 	// offset = extlen + (masked ? 4 : 0) + i
 	var cands [6]byte
-	cands[0] = at(0 + i)     // 7-bit, unmasked
-	cands[1] = at(4 + i)     // 7-bit, masked
-	cands[2] = at(2 + i)     // 16-bit, unmasked
-	cands[3] = at(6 + i)     // 16-bit, masked
-	cands[4] = at(8 + i)     // 64-bit, unmasked
-	cands[5] = at(12 + i)    // 64-bit, masked
+	cands[0] = at(0 + i)  // 7-bit, unmasked
+	cands[1] = at(4 + i)  // 7-bit, masked
+	cands[2] = at(2 + i)  // 16-bit, unmasked
+	cands[3] = at(6 + i)  // 16-bit, masked
+	cands[4] = at(8 + i)  // 64-bit, unmasked
+	cands[5] = at(12 + i) // 64-bit, masked
 	u := vfIte(l7 == 127, int(cands[4]), vfIte(l7 == 126, int(cands[2]), int(cands[0])))
 	k := vfIte(l7 == 127, int(cands[5]), vfIte(l7 == 126, int(cands[3]), int(cands[1])))
 	return byte(vfIte(m, k, u))
@@ -366,7 +366,7 @@ func vfH_read_step_ctl() {
 	b1 := vfByte()
 	vfAssume(int(b1&0x7f) == n)
 	vfAssume((b1&0x80 != 0) == masked)
-	vfAssume(b0&0x80 != 0)                         // FIN (fragmented control frames: step_data)
+	vfAssume(b0&0x80 != 0) // FIN (fragmented control frames: step_data)
 	op := int(b0 & 0x0f)
 	vfAssume(vfIsCtl(op))
 	key := [4]byte{vfByte(), vfByte(), vfByte(), vfByte()}
